@@ -14,14 +14,18 @@ def cfg(invs, max_files, max_writes, max_blocks=3, **over):
             + "MaxFiles = %d\nMaxWrites = %d\nMaxBlocks = %d\n" % (max_files, max_writes, max_blocks) + "".join("INVARIANT %s\n" % i for i in invs))
 
 
-def run_mc_bec2(rep, wd, tier, invs, selftest=None, max_files=None, max_writes=None):
-    mf = max_files or (1 if tier == "quick" else 2)
-    mw = max_writes or (1 if tier == "quick" else 2)
+def run_mc_bec2(rep, wd, tier, invs, selftest=None, two_files=None):
+    mf, mw = 1, (1 if tier == "quick" else 2)
+    if two_files is None:
+        two_files = tier == "thorough"
     res = tlc.require_ok(tlc.run(os.path.join(SPEC, "MC_Bec2.tla"), cfg(invs, mf, mw), os.path.join(wd, "mcb"), workers=16, timeout=2400), "MC_Bec2")
     rep.add_mc("MC_Bec2: invariants %s" % ",".join(invs), res, {"MaxFiles": mf, "MaxWrites": mw})
+    if not two_files:
+        res2 = None
     # two files with one block each, both written: the scenario in which splicing and cross-file freshness are exercised
-    res2 = tlc.require_ok(tlc.run(os.path.join(SPEC, "MC_Bec2.tla"), cfg(invs, 2, 2, 1), os.path.join(wd, "mcb2"), workers=16, timeout=2400), "MC_Bec2/2files")
-    rep.add_mc("MC_Bec2 (two files, one block each, two writes): invariants %s" % ",".join(invs), res2, {"MaxFiles": 2, "MaxWrites": 2, "MaxBlocks": 1})
+    else:
+        res2 = tlc.require_ok(tlc.run(os.path.join(SPEC, "MC_Bec2.tla"), cfg(invs, 2, 2, 1), os.path.join(wd, "mcb2"), workers=16, timeout=2400), "MC_Bec2/2files")
+        rep.add_mc("MC_Bec2 (two files, one block each, two writes): invariants %s" % ",".join(invs), res2, {"MaxFiles": 2, "MaxWrites": 2, "MaxBlocks": 1})
     if selftest:
         inv, switch = selftest
         bad = tlc.run(os.path.join(SPEC, "MC_Bec2.tla"), cfg([inv], 1, 1, **{switch: "TRUE"}), os.path.join(wd, "mcb_st"), workers=16, timeout=900)
